@@ -7,6 +7,7 @@ os.makedirs(dst, exist_ok=True)
 shutil.copy(f"{src}/patch.diff", f"{dst}/patch.diff")
 demo_path = open(f"{src}/demo_path.txt").read().strip()
 shutil.copy(f"{src}/demo_test.go", f"{dst}/demo_test.go.txt")
+open(f"{dst}/demo_path.txt","w").write(demo_path+"\n")
 notes = open(f"{src}/notes.md").read()
 meta = {
  "property": prop,
